@@ -117,10 +117,12 @@ func genSwaps(m *model.Model, filter string) []mutant {
 			}
 			name := fd.Name.Name
 			expect := "ro." + name
+			group := ""
 			if fd.Recv != nil && len(fd.Recv.List) == 1 {
 				tn := load.RecvTypeName(fd.Recv.List[0].Type)
 				name = tn + "." + name
 				expect = "ro." + tn
+				group = tn
 			}
 			if filter != "" && !strings.Contains(name, filter) {
 				continue
@@ -169,7 +171,7 @@ func genSwaps(m *model.Model, filter string) []mutant {
 					}
 					pos := m.Prog.Fset.Position(a.Pos())
 					id := fmt.Sprintf("swap:%s:%d", name, pos.Line)
-					out = append(out, mutant{ID: id, Op: "swap", Group: name, File: fname,
+					out = append(out, mutant{ID: id, Op: "swap", Group: groupOr(group, name), File: fname,
 						Edits:  []edit{{off(a.Pos()), off(b.End()), tb + sep + ta}},
 						Expect: expect,
 						Desc:   fmt.Sprintf("%s %s:%d  swap [%s] <-> [%s]", name, m.Prog.Rel(a.Pos()), pos.Line, oneLine(ta), oneLine(tb))})
@@ -209,10 +211,12 @@ func genDeletes(m *model.Model, filter string) []mutant {
 			}
 			name := fd.Name.Name
 			expect := "ro." + name
+			group := ""
 			if fd.Recv != nil && len(fd.Recv.List) == 1 {
 				tn := load.RecvTypeName(fd.Recv.List[0].Type)
 				name = tn + "." + name
 				expect = "ro." + tn
+				group = tn
 			}
 			if filter != "" && !strings.Contains(name, filter) {
 				continue
@@ -238,7 +242,7 @@ func genDeletes(m *model.Model, filter string) []mutant {
 				off := func(pos token.Pos) int { return m.Prog.Fset.Position(pos).Offset }
 				pos := m.Prog.Fset.Position(st.Pos())
 				txt := string(src[off(st.Pos()):off(st.End())])
-				out = append(out, mutant{ID: fmt.Sprintf("delete:%s:%d:%d", name, pos.Line, pos.Column), Op: "delete", Group: name, File: fname,
+				out = append(out, mutant{ID: fmt.Sprintf("delete:%s:%d:%d", name, pos.Line, pos.Column), Op: "delete", Group: groupOr(group, name), File: fname,
 					Edits:  []edit{{off(st.Pos()), off(st.End()), "{}"}},
 					Expect: expect,
 					Desc:   fmt.Sprintf("%s %s  delete [%s]", name, m.Prog.Rel(st.Pos()), oneLine(txt))})
@@ -247,4 +251,11 @@ func genDeletes(m *model.Model, filter string) []mutant {
 		}
 	}
 	return out
+}
+
+func groupOr(g, name string) string {
+	if g != "" {
+		return g
+	}
+	return name
 }
